@@ -433,3 +433,35 @@ Proof.
   apply nth_error_In in E. apply filter_In in E. destruct E as [_ E]. unfold has_infos in E.
   destruct (e_infos x); [discriminate | discriminate].
 Qed.
+
+(* ---- which members of a group are "leading": those with the most peptides among the members AND every protein the evidence names ---- *)
+Lemma leading_proteins_spec g infos p :
+  In p (leading_proteins g infos) <->
+  In p g /\ forall q, In q (g ++ concat (map pi_prots infos)) ->
+              peptide_count infos (Some (101 # 100)%Q) q <= peptide_count infos (Some (101 # 100)%Q) p.
+Proof.
+  unfold leading_proteins. set (cnt := peptide_count infos (Some (101 # 100)%Q)).
+  set (all := g ++ concat (map pi_prots infos)).
+  rewrite filter_In, Nat.eqb_eq.
+  assert (Hle : forall q, In q all -> cnt q <= list_max (map cnt all)).
+  { intros q Hq. assert (H : list_max (map cnt all) <= list_max (map cnt all)) by apply Nat.le_refl.
+    apply list_max_le in H. rewrite Forall_forall in H. apply H. apply in_map. exact Hq. }
+  split.
+  - intros [Hp Hm]. split; [exact Hp|]. intros q Hq. rewrite Hm. apply Hle. exact Hq.
+  - intros [Hp Hall]. split; [exact Hp|]. apply Nat.le_antisymm.
+    + apply Hle. unfold all. apply in_or_app. left. exact Hp.
+    + apply list_max_le. apply Forall_forall. intros n Hn. apply in_map_iff in Hn. destruct Hn as [q [<- Hq]]. apply Hall. exact Hq.
+Qed.
+
+(* a group whose evidence names an OUTSIDE protein with strictly more peptides than every member has no leading protein at all
+   (it blocks nobody): what the code does, e.g. for placeholder groups whose evidence keeps the unprefixed names *)
+Lemma no_leader_when_outsider_has_most g infos q :
+  In q (concat (map pi_prots infos)) ->
+  (forall p, In p g -> peptide_count infos (Some (101 # 100)%Q) p < peptide_count infos (Some (101 # 100)%Q) q) ->
+  leading_proteins g infos = [].
+Proof.
+  intros Hq Hlt. destruct (leading_proteins g infos) as [|p r] eqn:E; [reflexivity|]. exfalso.
+  assert (Hp : In p (leading_proteins g infos)) by (rewrite E; left; reflexivity).
+  apply leading_proteins_spec in Hp. destruct Hp as [Hg Hall].
+  specialize (Hall q (in_or_app _ _ _ (or_intror Hq))). specialize (Hlt p Hg). lia.
+Qed.
